@@ -208,6 +208,26 @@ fn eval(name: &str, a: &[Value]) -> Value {
             }
         }
         "execute_all" => crate::exec::execute_all(&a[0]),
+        // run one shell expression through the real BashRunner (fresh state directory): {"stdout": bytes, "status": str}
+        "bash_run" => {
+            use scrut::executors::runner::Runner;
+            let tmp = std::env::temp_dir().join(format!("verif-bash-{}", std::process::id()));
+            let _ = std::fs::create_dir_all(tmp.join("state"));
+            let runner = scrut::executors::bash_runner::BashRunner::new(std::path::Path::new("/bin/bash"), &tmp.join("state"));
+            let context = scrut::executors::context::ContextBuilder::default()
+                .work_directory(tmp.clone()).temp_directory(tmp.clone()).file(std::path::PathBuf::from("f.md"))
+                .config(scrut::config::DocumentConfig::empty()).build().unwrap();
+            let mut config = scrut::config::TestCaseConfig::empty();
+            config.timeout = Some(std::time::Duration::from_secs(10));
+            let testcase = scrut::testcase::TestCase { title: "t".into(), shell_expression: str_arg(&a[0]), expectations: vec![],
+                exit_code: None, line_number: 1, config };
+            let out = runner.run("exec1", &testcase, &context);
+            let _ = std::fs::remove_dir_all(&tmp);
+            match out {
+                Ok(o) => { let so: Vec<u8> = (&o.stdout).into(); json!({"stdout": so, "status": o.exit_code.to_string()}) }
+                Err(e) => json!({"error": e.to_string()}),
+            }
+        }
         // a real shell that kills itself with SIGKILL, run through the real SubprocessRunner
         "signal_status" => {
             use scrut::executors::runner::Runner;
@@ -275,7 +295,8 @@ fn eval(name: &str, a: &[Value]) -> Value {
             }
         }
         "iterate_divided_output" => {
-            match scrut::executors::bash_script_executor::verif_hooks::iterate_divided_output(&bytes_arg(&a[0])) {
+            let salt = a.get(1).map(str_arg).unwrap_or_else(|| "SALT".to_string());
+            match scrut::executors::bash_script_executor::verif_hooks::iterate_divided_output(&salt, &bytes_arg(&a[0])) {
                 Ok(v) => json!({"Ok": v.iter().map(|(i, o, c)| json!([i, bytes_val(o), c])).collect::<Vec<_>>()}),
                 Err(e) => json!({"Err": e}),
             }
